@@ -402,4 +402,90 @@ theorem scanN_snap (ppOf : Int → Nat → Nat) : ∀ (n : Nat) (e : Env) (it : 
       exact ⟨hi.1.trans hs.1, hi.2.trans hs.2⟩
     · exact hs
 
+/-! ### the fuel of `scanF` is enough: a Scan that returns false has really ended the iterator -/
+
+theorem connExec_progress (pp : Nat → Nat) : ∀ (script : List Reply) (c : Bool) (q : Qry),
+    (connExec pp script c q).rest.length < script.length ∨ (connExec pp script c q).iter.err.isSome = true := by
+  intro script
+  induction script with
+  | nil => intro c q; right; simp [connExec, errIter]
+  | cons r rest ih =>
+    intro c q
+    cases r with
+    | unprepared =>
+      rcases ih false q with h | h
+      · left; simp only [connExec, List.length_cons]; omega
+      · right; simpa [connExec] using h
+    | fail f => left; simp [connExec]
+    | page rows st => left; simp [connExec]
+
+/-- either executor path: nothing sent and `context canceled` if the caller's context is done, otherwise
+    conn.executeQuery of the unchanged query -/
+theorem sessExec_fst (ppOf : Int → Nat → Nat) (e : Env) (script : List Reply) (q : Qry) :
+    (sessExec ppOf e script q).1 =
+      (if callerDead e q.ctx then ⟨errIter .ctx, script, []⟩ else connExec (ppOf q.pf) script e.cached q) := by
+  unfold sessExec
+  by_cases hs : (q.idem && decide (0 < q.spec)) = true <;> cases hd : callerDead e q.ctx <;> simp [hs, dead, hd]
+
+theorem sessExec_progress (ppOf : Int → Nat → Nat) (e : Env) (script : List Reply) (q : Qry) :
+    (sessExec ppOf e script q).1.rest.length < script.length ∨ (sessExec ppOf e script q).1.iter.err.isSome = true := by
+  rw [sessExec_fst]
+  split
+  · right; simp [errIter]
+  · exact connExec_progress _ script e.cached q
+
+theorem scanF_false_finished (ppOf : Int → Nat → Nat) : ∀ (k : Nat) (e : Env) (it : It),
+    (it.rest.length + (if it.pre.isSome then 1 else 0) + 2 ≤ k ∨ (1 ≤ k ∧ it.cur.err.isSome = true)) →
+    (scanF ppOf k e it).2.2 = false → finished (scanF ppOf k e it).1 := by
+  intro k
+  induction k with
+  | zero => intro e it h; rcases h with h | h <;> omega
+  | succ k ih =>
+    intro e it hk
+    unfold scanF
+    cases hs : scanRow it.cur with
+    | some rc => obtain ⟨r, c'⟩ := rc; simp
+    | none =>
+      simp only []
+      cases he : it.cur.err with
+      | some f => intro _; left; simp [he]
+      | none =>
+        simp only []
+        have hrow : it.cur.rows[it.cur.pos]? = none := by
+          unfold scanRow at hs
+          simp only [he] at hs
+          cases hr : it.cur.rows[it.cur.pos]? with
+          | none => rfl
+          | some r' => simp [hr] at hs
+        cases hn : it.cur.next with
+        | none => intro _; right; exact ⟨hrow, hn⟩
+        | some n =>
+          simp only []
+          have hk1 : it.rest.length + (if it.pre.isSome then 1 else 0) + 2 ≤ k + 1 := by
+            rcases hk with h | h
+            · exact h
+            · simp [he] at h
+          cases hp : it.pre with
+          | some nx =>
+            have hno := force_noop ppOf e it (Or.inr (Or.inl (by simp [hp])))
+            rw [hno]
+            simp only [hp]
+            apply ih
+            left
+            simp [hp] at hk1
+            simp; omega
+          | none =>
+            rw [force_eq ppOf e it n he hp hn]
+            simp only []
+            apply ih
+            simp [hp] at hk1
+            rcases sessExec_progress ppOf e it.rest n.qry with h | h
+            · left; simp; omega
+            · right; exact ⟨by omega, by simpa using h⟩
+
+theorem scanF_fuel (ppOf : Int → Nat → Nat) (e : Env) (it : It)
+    (h : (scanF ppOf (scanFuel it) e it).2.2 = false) : finished (scanF ppOf (scanFuel it) e it).1 := by
+  apply scanF_false_finished ppOf (scanFuel it) e it _ h
+  left; unfold scanFuel; split <;> omega
+
 end Paging.Hist
